@@ -158,13 +158,13 @@ def cubes_graph(tier, seed):
                 out.append({'templates': [a, b]})
                 if NSLOTS[a] + NSLOTS[b] <= 3:
                     out.append({'templates': [a, b], 'leafname': 'default'})
-    n3 = 30 if tier == 'quick' else 200
+    n3 = 30 if tier == 'quick' else 120
     seen = set()
     tries = 0
     while len(seen) < n3 and tries < 5000:
         tries += 1
         ts = tuple(rng.choice(allt) for _ in range(3))
-        if sum(NSLOTS[t] for t in ts) <= (5 if tier == 'quick' else 7) \
+        if sum(NSLOTS[t] for t in ts) <= (5 if tier == 'quick' else 6) \
                 and ts not in seen:
             seen.add(ts)
             out.append({'templates': list(ts)})
@@ -172,7 +172,7 @@ def cubes_graph(tier, seed):
         for _ in range(40):
             ts = [rng.choice(['S', 'notS', 'SandS', 'SorS', 'leaf'])
                   for _ in range(rng.choice([4, 5, 6]))]
-            if sum(NSLOTS[t] for t in ts) <= 7:
+            if sum(NSLOTS[t] for t in ts) <= 6:
                 out.append({'templates': ts})
     return out
 
